@@ -18,7 +18,7 @@ RULE = ('Hypothesis-generated abstract netlists rendered (i) as structural Veril
         'abstract netlist: io_nodes names in header order with bus bits in declared range order; after resolve_tlib_cells the truth table '
         '(exhaustive up to 10 sources, else 256 generated patterns) at every output and flip-flop equals the reference; branchforks only adds '
         '1:1 forks named <signal>~<instance>/<pin>; the bench text of the same netlist has the same truth table. non-trivial: text contains an '
-        'ascending and a descending bus or an assign, and a cell with >= 3 distinctly behaving pins (AOI/OAI/AO/OA/MUX); distinct by SHA-1.')
+        'ascending and a descending bus or an assign, and a cell with >= 3 distinctly behaving pins (AOI/OAI/AO/OA/MUX); distinct by SHA-1. An escaped identifier is ended by a blank, a tab, a line feed or CR LF, chosen per occurrence.')
 ASSUMPTIONS = ['supported subset only (named pin connections, single-bit pin expressions); last pin of an AND/NAND cell is never left open (ambiguous arity)',
                'resolved circuits are simulated with LogicSim(m=2) (decided separately by C01)']
 
